@@ -99,8 +99,15 @@ def run(tier):
     for k in ("table", "super"):
         for ops in opsets:
             libcases.append({"kind": k, "ops": ops, "n": rng.choice([5, 60, 400])})
+    for ld in ("disk", "map", "skiplist", "slice"):
+        for hm in ("", "read"):
+            libcases.append({"kind": "table", "ops": ["scanabandon", "get", "range", "scan"], "n": rng.choice([5, 60, 400]), "loader": ld, "hash": hm})
+        libcases.append({"kind": "super", "ops": ["scanabandon", "get", "rangeabandon"], "n": rng.choice([5, 60]), "loader": ld, "hash": ""})
     for k in ("recordio", "mmap", "wal"):
         libcases.append({"kind": k, "ops": [], "n": rng.choice([10, 80])})
+    # last (what a failed open leaves mapped would be counted by every later case): recorded as notes only
+    for dmg in ("trunc", "flip"):
+        libcases.append({"kind": "tablefail", "ops": [], "n": 40, "damage": dmg})
     work = common.scratch("C19-lib")
     ltrace = os.path.join(work, "trace.ndjson")
     env = dict(os.environ)
